@@ -164,6 +164,39 @@ def case_joinpath_enc(acc, auth, segs):
     return run(acc, "joinpath_enc", (auth, segs), lambda: impl.URL("/r/s").joinpath(*segs, encoded=True), lambda: "/r/s/" + tail, False)
 
 
+def _no_dots(acc, case, args, fn):
+    """Entry points that replace the last segment: the statement's invariant (an authority => no dot segment, path a fixed point of
+    remove_dot_segments and of re-parsing) must hold for whatever they return; refusing with ValueError is fine."""
+    acc.evals += 1
+    try:
+        u = fn()
+    except (ValueError, TypeError):
+        acc.count("rejected")
+        return None
+    except Exception:  # noqa: BLE001
+        acc.count("other_exception")
+        return None
+    raw = u.raw_path
+    return expect(acc, case, args, u, raw, True)
+
+
+def case_with_suffix(acc, suffix, segs):
+    if not segs:
+        return None
+    base = "http://h.com/a/" + "/".join(segs) + "?q#f"
+    return _no_dots(acc, "with_suffix", (suffix, segs), lambda: impl.URL(base).with_suffix(suffix, keep_query=True))
+
+
+NAME_DECOR = ["{}", "{}\udc00", "\udc00{}", ".\udc00{}", "{}\ud800."]
+
+
+def case_with_name(acc, decor, segs):
+    if len(segs) != 1 or "/" in segs[0]:
+        return None
+    name = NAME_DECOR[decor].replace("{}", segs[0])
+    return _no_dots(acc, "with_name", (decor, segs), lambda: impl.URL("http://h.com/a/b?q#f").with_name(name))
+
+
 def case_join(acc, base, segs):
     """base 'auth' only: RFC merge + remove_dot_segments; the reference path is rootless or rooted by its first segment."""
     p = "/".join(segs)
@@ -177,11 +210,12 @@ def case_join(acc, base, segs):
 
 
 CASES = {"ctor": case_ctor, "build": case_build, "with_path": case_with_path, "truediv": case_truediv,
-         "joinpath": case_joinpath, "joinpath_enc": case_joinpath_enc, "join": case_join}
+         "joinpath": case_joinpath, "joinpath_enc": case_joinpath_enc, "join": case_join, "with_suffix": case_with_suffix, "with_name": case_with_name}
 
 ENTRY = ([("ctor", f) for f in ("auth", "netpath", "rooted", "rootless", "opaque", "opaque_rooted")]
          + [(n, a) for n in ("build", "with_path", "truediv", "joinpath", "joinpath_enc") for a in (True, False)]
-         + [("join", b) for b in ("auth", "auth_slash", "auth_empty")])
+         + [("join", b) for b in ("auth", "auth_slash", "auth_empty")]
+         + [("with_suffix", x) for x in ("", ".x", ".")] + [("with_name", d) for d in range(len(NAME_DECOR))])
 
 
 def task_seqs(entry, variant, maxlen, first):
